@@ -146,7 +146,7 @@ theorem cinv_step (cfg : Cfg) (st : State) (p : Prog) (h : Handle) (ev : Event) 
         simp only []
         by_cases hq : q = q'
         · simp only [hq, ite_true]
-          exact cinv_settle _ _ _ _ rfl hh (resume_alloc cfg t none g _ hb)
+          exact cinv_settle _ _ _ _ rfl hh (resume_alloc cfg t none (g.markSet q') _ (by simpa using hb))
         · simp only [hq, ite_false]
           exact ⟨Or.inr hh, by simpa [CBound] using hb⟩
     | call k =>
